@@ -1,3 +1,4 @@
+import PiqpProofs.Garbage
 import PiqpProofs.Basic
 import PiqpModel.Api
 import PiqpProofs.Properties.C01
@@ -567,4 +568,88 @@ theorem solve_caches (cs : Consts K) (sqrtF : K → K) (s : Solver K n p m) (per
       unfold mainLoop
       exact this _ _ _ (by rw [initialPoint_kkt]; exact hil)
 end identityCaches
+end Piqp.C04
+
+/-! ## `reuse_preconditioner = false` forgets the previous scaling (dense Ruiz preconditioner) -/
+
+set_option linter.unusedSectionVars false
+namespace Piqp.C04
+open Piqp.C07
+variable {K : Type}
+variable [Add K] [Sub K] [Mul K] [Div K] [Neg K] [Zero K] [One K] [LT K] [DecidableLT K] [LE K] [DecidableLE K]
+variable [NatCast K] [BEq K] [Inhabited K]
+variable {n p m : Nat}
+
+/-- the cost-scaling inverse is a passenger of the Ruiz iteration: never read, carried along -/
+theorem ruizBody_cInv (kind : PrecKind) (sqrtF : K → K) (cs : Consts K) (sc : Bool) (d : Data K n p m) (pre : Precond K n p m) (a : K) :
+    ruizBody kind sqrtF cs sc ⟨d, { pre with cInv := a }⟩ =
+      ⟨(ruizBody kind sqrtF cs sc ⟨d, pre⟩).d, { (ruizBody kind sqrtF cs sc ⟨d, pre⟩).pre with cInv := a }⟩ := by
+  unfold ruizBody
+  cases sc
+  · simp only [Bool.false_eq_true, if_false]
+  · simp only [if_true]
+
+theorem ruizLoop_cInv (kind : PrecKind) (sqrtF : K → K) (cs : Consts K) (sc : Bool) (a : K) : ∀ (fuel : Nat) (d : Data K n p m) (pre : Precond K n p m),
+    ruizLoop kind sqrtF cs sc fuel ⟨d, { pre with cInv := a }⟩ =
+      ⟨(ruizLoop kind sqrtF cs sc fuel ⟨d, pre⟩).d, { (ruizLoop kind sqrtF cs sc fuel ⟨d, pre⟩).pre with cInv := a }⟩
+  | 0, d, pre => rfl
+  | fuel+1, d, pre => by
+    simp only [ruizLoop]
+    have hc : ruizCond cs (⟨d, { pre with cInv := a }⟩ : RuizState K n p m) = ruizCond cs ⟨d, pre⟩ := rfl
+    rw [hc]
+    split
+    · rw [ruizBody_cInv]
+      exact ruizLoop_cInv kind sqrtF cs sc a fuel _ _
+    · rfl
+
+/-- the preconditioner state `scale_data(reuse = false)` starts its iteration from, with the one field it does not reset -/
+def preBase (d : Data K n p m) (a : K) : Precond K n p m :=
+  { nlb := d.lb.cnt, nub := d.ub.cnt, c := 1, dx := Vec.const n 1, dy := Vec.const p 1, dz := Vec.const m 1,
+    dlb := Vec.const n 1, dub := Vec.const n 1, cInv := a, dxInv := Vec.const n 0, dyInv := Vec.const p 0, dzInv := Vec.const m 0,
+    dlbInv := Vec.const n 0, dubInv := Vec.const n 0 }
+
+/-- the last step of `scale_data(reuse = false)`: all inverse vectors are recomputed from the final scalings -/
+def finishFresh (st : RuizState K n p m) : Data K n p m × Precond K n p m :=
+  (st.d, { st.pre with cInv := 1 / st.pre.c,
+                       dxInv := Vector.ofFn fun k => 1 / st.pre.dx[k],
+                       dyInv := Vector.ofFn fun k => 1 / st.pre.dy[k],
+                       dzInv := Vector.ofFn fun k => 1 / st.pre.dz[k],
+                       dlbInv := Vector.ofFn fun k => 1 / st.pre.dlb[k],
+                       dubInv := Vector.ofFn fun k => 1 / st.pre.dub[k] })
+
+/-- **a fresh scaling forgets the previous one (dense Ruiz preconditioner)**: `scale_data(reuse_prev_scaling = false)` returns the same
+    scaled data and the same scaling vectors whatever the preconditioner object held before — `update(…, reuse_preconditioner = false)`
+    stores exactly what a newly constructed preconditioner would compute for the same data -/
+theorem scaleData_fresh_forgets (sqrtF : K → K) (cs : Consts K) (d : Data K n p m) (pre pre' : Precond K n p m) (sc : Bool) (it : Nat) :
+    Precond.scaleData .denseRuiz sqrtF cs d pre false sc it = Precond.scaleData .denseRuiz sqrtF cs d pre' false sc it := by
+  rw [scaleData_eq, scaleData_eq]
+  simp only [reduceCtorEq, if_false]
+  congr 1
+  unfold scaleCore
+  simp only [Bool.not_false, if_true]
+  have key : ∀ a : K,
+      ruizLoop .denseRuiz sqrtF cs sc it ⟨d, (preBase d a)⟩ =
+      ⟨(ruizLoop .denseRuiz sqrtF cs sc it ⟨d, (preBase d 0)⟩).d,
+       { (ruizLoop .denseRuiz sqrtF cs sc it ⟨d, (preBase d 0)⟩).pre with cInv := a }⟩ :=
+    fun a => ruizLoop_cInv .denseRuiz sqrtF cs sc a it d (preBase d 0)
+  show finishFresh (ruizLoop .denseRuiz sqrtF cs sc it ⟨d, preBase d pre.cInv⟩) = finishFresh (ruizLoop .denseRuiz sqrtF cs sc it ⟨d, preBase d pre'.cInv⟩)
+  rw [key pre.cInv, key pre'.cInv]
+  rfl
+
+/-- **C04, `update(…, reuse_preconditioner = false)` stores what `setup()` would store** (dense Ruiz preconditioner): the scaled data and
+    the scaling vectors after the update are those a newly initialised preconditioner computes for the updated raw data `updateRaw …`
+    — nothing of the previous scaling survives -/
+theorem update_fresh_is_setup_scaling (cs : Consts K) (sqrtF : K → K) (sparse : Bool) (maskP : Array Bool) (s : Solver K n p m)
+    (hk : s.pk = .denseRuiz)
+    (P : Option (Mat K n n)) (c : Option (Vec K n)) (A : Option (Mat K p n)) (b : Option (Vec K p))
+    (G : Option (Mat K m n)) (h : Option (Vec K m)) (xlb xub : Option (Vec K n)) :
+    let d8 := updateRaw cs sparse maskP s P c A b G h xlb xub
+    let fresh := Precond.scaleData .denseRuiz sqrtF cs d8 (Precond.init d8) false s.st.precScaleCost s.st.precIter.toNat
+    (updateTyped cs sqrtF sparse maskP s P c A b G h xlb xub false).data = fresh.1 ∧
+    (updateTyped cs sqrtF sparse maskP s P c A b G h xlb xub false).pre = fresh.2 := by
+  intro d8 fresh
+  unfold updateTyped
+  simp only
+  rw [hk, scaleData_fresh_forgets sqrtF cs _ s.pre (Precond.init d8)]
+  exact ⟨rfl, rfl⟩
 end Piqp.C04
